@@ -93,9 +93,11 @@ func newRaceState() *raceState {
 	return &raceState{loc: map[uintptr]*shadow{}, seen: map[string]bool{}}
 }
 
+// accessPos names the function of the module under test that performs the access (function names survive
+// edits and the instrumenter's reformatting; line numbers of rewritten files do not).
 func accessPos() string {
 	for skip := 1; skip < 10; skip++ {
-		pc, file, line, ok := runtime.Caller(skip)
+		pc, _, _, ok := runtime.Caller(skip)
 		if !ok {
 			return "?"
 		}
@@ -103,12 +105,16 @@ func accessPos() string {
 		if strings.Contains(fn, "/mcrt.") {
 			continue
 		}
-		if i := strings.LastIndex(file, "/"); i >= 0 {
-			if j := strings.LastIndex(file[:i], "/"); j >= 0 {
-				file = file[j+1:]
+		if i := strings.LastIndex(fn, "/"); i >= 0 {
+			fn = fn[i+1:]
+		}
+		// generic instantiations print their type arguments: keep the name stable
+		if i := strings.Index(fn, "["); i >= 0 {
+			if j := strings.LastIndex(fn, "]"); j > i {
+				fn = fn[:i] + "[...]" + fn[j+1:]
 			}
 		}
-		return fmt.Sprintf("%s:%d", file, line)
+		return fn
 	}
 	return "?"
 }
